@@ -367,8 +367,8 @@ def run(tier, seed):
     chk = Check('C02', tier, 'model_checking', seed)
     chk.encode(EquationSolver._SolveStep, EquationSolver.SolveStep, EquationSolver.SetInitialConditions,
                EquationSolver.ExtractVariableList, sfc_models.equation_parser.EquationParser.EquationReduction)
-    BUDGET[0] = 60 if tier == 'quick' else 1200
-    FP_TIMEOUT[0] = 120000 if tier == 'quick' else 600000
+    BUDGET[0] = 60 if tier == 'quick' else 400
+    FP_TIMEOUT[0] = 120000 if tier == 'quick' else 300000
     from vf import selfcheck
     selfcheck.run(chk)      # differential validation of the E2 value classes against plain floats (trusted base)
     rc = real_cases(tier)
